@@ -1,6 +1,7 @@
 package main
 
 import (
+	"io"
 	"fmt"
 
 	"github.com/keybase/saltpack"
@@ -33,9 +34,21 @@ func goExecMore2(t []string) (string, bool) {
 		src := parseSource(t[4])
 		var err error
 		if t[0] == "sig.signcalls" {
-			script.With(src, func() { _, err = saltpack.Sign(v, unhex(t[6]), signer) })
+			script.With(src, func() {
+				if currentWrites != nil {
+					_, err = viaStream(unhex(t[6]), func(w io.Writer) (io.WriteCloser, error) { return saltpack.NewSignStream(v, w, signer) })
+				} else {
+					_, err = saltpack.Sign(v, unhex(t[6]), signer)
+				}
+			})
 		} else {
-			script.With(src, func() { _, err = saltpack.SignDetached(v, unhex(t[5]), signer) })
+			script.With(src, func() {
+				if currentWrites != nil {
+					_, err = viaStream(unhex(t[5]), func(w io.Writer) (io.WriteCloser, error) { return saltpack.NewSignDetachedStream(v, w, signer) })
+				} else {
+					_, err = saltpack.SignDetached(v, unhex(t[5]), signer)
+				}
+			})
 		}
 		if err != nil {
 			return "err " + script.Class(err), true
@@ -51,7 +64,15 @@ func goExecMore2(t []string) (string, bool) {
 		boxes, syms := parseSRecips(t[2], c)
 		src := &script.Source{Reads: []script.Read{{Data: unhex(t[4])}}}
 		var err error
-		script.With(src, func() { _, err = saltpack.SigncryptSeal(unhex(t[6]), c, sender, boxes, syms) })
+		script.With(src, func() {
+			if currentWrites != nil {
+				_, err = viaStream(unhex(t[6]), func(w io.Writer) (io.WriteCloser, error) {
+					return saltpack.NewSigncryptSealStream(w, c, sender, boxes, syms)
+				})
+			} else {
+				_, err = saltpack.SigncryptSeal(unhex(t[6]), c, sender, boxes, syms)
+			}
+		})
 		if err != nil {
 			return "err " + script.Class(err), true
 		}
